@@ -921,3 +921,90 @@ example : execStep CK (run CK 3) (.ifS (.bool false) [.brk] [(.bool false, [.con
   (if_as_in_source CK (run CK 3) (.bool false) [.brk] [(.bool false, [.cont]), (.bool true, [.stop])] (some [.brk])).1
 
 end PyxProps.C04
+
+/-! ==========================================================================================================
+  SOURCE TIE, second part (builder interp-shape): select related by, and the SymbolTable — appended section
+  ========================================================================================================== -/
+namespace PyxProps.C04
+open Pyx.Interp Pyx.IShape Pyx.Gen.InterpShape
+
+/-- select … related by (+ where): the handle is evaluated, `node.many` dispatches navigate_many / navigate_one (the kind of
+    chain decides set / first when the chain is called), the loop `for step in self.accept(node.navigation_chain): chain =
+    step(chain)` is `Spec`'s chain navigation (`navChain`; induction on the chain, for every continuation that reads the locals
+    `chain` and `where` only), the where closure (enter_block, install 'selected', the clause, leave_block), the result of
+    calling the chain is installed under the variable name -/
+theorem select_related_as_in_source (C : Ctx) (rec : Oracle) (many : Bool) (v : String) (h : Expr) (chain : List NavStep)
+    (wh : Expr) :
+    execStep C rec (.selectRelated many v h chain none) =
+      handlerS C (selRelNode many v (rec.eval h) chain none) accept_SelectRelatedNode ∧
+    execStep C rec (.selectRelated many v h chain (some wh)) =
+      handlerS C (selRelNode many v (rec.eval h) chain (some (rec.eval wh))) accept_SelectRelatedWhereNode :=
+  ⟨selectRelated_eq C rec many v h chain, selectRelatedWhere_eq C rec many v h chain wh⟩
+
+/-- the invariant that makes the source's symbol table and `Spec`'s agree: a name is held by at most one block of the scope
+    (`install_symbol` overwrites a visible symbol where it is and creates a name only when NO block of the scope holds it).
+    It holds when a body starts, and EVERY statement — any nesting, loops, where clauses, calls, any fuel — and every body
+    keeps it (the induction of Proofs/InterpScope.lean carried out for an arbitrary preorder respected by install, pushBlock,
+    popBlock, setRet: Proofs/InterpEnvInv.lean) -/
+theorem scope_names_unique (C : Ctx) (n : Nat) :
+    (∀ kind kw self, EnvUnique (mkFrame kind kw self).env) ∧
+    (∀ s c o c', (run C n).exec s c = some (.ok (o, c')) → EnvUnique c.fr.env → EnvUnique c'.fr.env) ∧
+    (∀ body c c', runBody (run C n) body c = some (.ok ((), c')) → EnvUnique c.fr.env → EnvUnique c'.fr.env) ∧
+    (∀ env x v, EnvUnique env → EnvUnique (envInstall env x v)) :=
+  ⟨unique_start, fun s c o c' => unique_run C n s c o c', fun body c c' => unique_body C n body c c', envInstall_unique⟩
+
+/-- find_symbol: the source scans the blocks of the scope head in ENTRY order (outermost first: `symtab.findSearch`), `Spec`
+    innermost first; under the invariant they find the same binding, and a miss goes to the domain's constants.  (Scanning in
+    the other order is, under the invariant, the same function; the record's order is stated so that such a change is seen.) -/
+theorem lookup_as_in_source (C : Ctx) (x : String) (c : Cfg) (hu : EnvUnique c.fr.env) :
+    envLookup c.fr.env x = pyFind symtab c.fr.env.reverse x ∧
+    lookupVar C x c = pyLookupVar symtab C x c ∧
+    symtab.findSearch = .firstToLast ∧ symtab.installSearch = symtab.findSearch ∧ symtab.findMiss = .domainConstant :=
+  ⟨envLookup_eq _ x hu, lookupVar_eq C x c hu, rfl, rfl, rfl⟩
+
+/-- install_symbol: the first block IN ENTRY ORDER that holds the name is overwritten in place; a name no block holds is
+    created in the LAST block (the innermost).  Under the invariant, on a scope with at least one block (without one Python
+    raises IndexError and `Spec` creates a block: outside the guard), this is `Spec`'s envInstall -/
+theorem install_as_in_source (env : Env) (x : String) (v : Val) (hu : EnvUnique env) (hne : env ≠ []) :
+    (envInstall env x v).reverse = pyInstall symtab env.reverse x v :=
+  envInstall_eq env x v hu hne
+
+/-- enter_block appends a block, leave_block pops the last one, a new scope starts with one block -/
+theorem blocks_as_in_source (env : Env) :
+    (([] : List (String × Val)) :: env).reverse = pyEnterBlock symtab env.reverse ∧
+    env.tail.reverse = pyLeaveBlock symtab env.reverse ∧
+    (mkFrame .function [] .none).env.reverse = pyNewScope symtab :=
+  blocks_eq env
+
+/-! non-vacuity -/
+
+/-- select many ks related by a->K[R1]: the interpreted source navigates the chain and installs the set; with navigate_one
+    where the source says navigate_many the variable holds an instance instead of the set -/
+def stKL : State := { stK with links := fun k => if k = 0 then [(⟨"K", 1⟩, ⟨"K", 0⟩), (⟨"K", 2⟩, ⟨"K", 0⟩)] else [] }
+def cfgKL : Cfg := { cfgK with st := stKL }
+example : varAfter (handlerS CK (selRelNode true "ks" (lookupVar CK "a") [⟨"K", "R1", ""⟩] none) accept_SelectRelatedNode cfgKL) "ks" =
+      some (.set [⟨"K", 1⟩, ⟨"K", 2⟩]) ∧
+    varAfter (handlerS CK (selRelNode true "ks" (lookupVar CK "a") [⟨"K", "R1", ""⟩] none)
+      [.assign "handle" (.acceptFget "handle"),
+       .ifNode "many" [.assign "chain" (.navigateOne "handle")] [.assign "chain" (.navigateMany "handle")],
+       .forAccept "step" "navigation_chain" [.assign "chain" (.callLocal "step" ["chain"])],
+       .expr (.installSymbolCall (.field "variable_name") "chain" [])] cfgKL) "ks" = some (.inst ⟨"K", 1⟩) := by
+  decide +kernel
+
+/-- the invariant is needed and the record matters: on a scope in which TWO blocks hold `x` (no run of `Spec` reaches one)
+    the two search orders differ; creating a new name in the FIRST block instead of the last, or scanning last-to-first, is
+    another table; on the scope of the examples (names unique) the theorems apply -/
+def envXX : Env := [[("x", .int 1)], [("y", .int 0)], [("x", .int 2)]]
+example : envLookup envXX "x" = some (.int 1) ∧ pyFind symtab envXX.reverse "x" = some (.int 2) ∧ ¬ EnvUnique envXX ∧
+    pyFind { symtab with findSearch := .lastToFirst } envXX.reverse "x" = some (.int 1) ∧
+    pyInstall symtab [[("y", .int 0)], []] "z" (.int 7) = [[("y", .int 0)], [("z", .int 7)]] ∧
+    pyInstall { symtab with installMissAt := .first } [[("y", .int 0)], []] "z" (.int 7) = [[("z", .int 7), ("y", .int 0)], []] ∧
+    pyInstall symtab [[("y", .int 0)], []] "y" (.int 7) = [[("y", .int 7)], []] := by
+  refine ⟨by decide, by decide, by unfold EnvUnique; decide, by decide, by decide, by decide, by decide⟩
+example : EnvUnique cfgK.fr.env ∧ cfgK.fr.env ≠ [] := ⟨by unfold EnvUnique; decide, by decide⟩
+example : envLookup cfgK.fr.env "l" = pyFind symtab cfgK.fr.env.reverse "l" :=
+  (lookup_as_in_source CK "l" cfgK (by unfold EnvUnique; decide)).1
+example : (envInstall cfgK.fr.env "q" (.int 1)).reverse = pyInstall symtab cfgK.fr.env.reverse "q" (.int 1) :=
+  install_as_in_source _ _ _ (by unfold EnvUnique; decide) (by decide)
+
+end PyxProps.C04
